@@ -1356,7 +1356,7 @@ class CassisKit(Kit):
         return block((self.module(), "detect"))
 
     def load(self, data, record):
-        # from_json alone is never what the pipeline runs: run_on_record stores the promoters of reused results
+        # from_json alone is never what the pipeline runs: the promoters of reused results are stored as well
         results = self.cls().from_json(data, record)
         if results is not None:
             results.add_to_record(record)
